@@ -48,6 +48,7 @@ type World struct {
 	envSteps   int
 	itoaSeen   []*Term
 	autoO2     string
+	lastObs    *Term // tick of this coroutine's previous store transaction
 }
 
 func newWorld(ex *Exec) *World {
@@ -317,6 +318,16 @@ func init() {
 	vx("SetDialect", func(ex *Exec, fr *Frame, a []Value, s ssa.Instruction) Value {
 		ex.W.db.dialect = ex.str(a[0], "dialect")
 		return nil
+	})
+	vx("TmplExpand", func(ex *Exec, fr *Frame, a []Value, s ssa.Instruction) Value {
+		return ex.tt.UF("tmpl_expand", SString, a[0].(*Term), a[1].(*Term), a[2].(*Term))
+	})
+	vx("Itoa", func(ex *Exec, fr *Frame, a []Value, s ssa.Instruction) Value { return ex.fmtArg(a[0]) })
+	vx("CronNext", func(ex *Exec, fr *Frame, a []Value, s ssa.Instruction) Value {
+		return ex.tt.UF("cron_next", SBV64, a[0].(*Term), a[1].(*Term))
+	})
+	vx("CronValid", func(ex *Exec, fr *Frame, a []Value, s ssa.Instruction) Value {
+		return ex.tt.UF("cron_valid", SBool, a[0].(*Term))
 	})
 	vx("HasPrefix", func(ex *Exec, fr *Frame, a []Value, s ssa.Instruction) Value {
 		return ex.tt.PrefixOf(a[1].(*Term), a[0].(*Term))
